@@ -539,8 +539,19 @@ impl ZipOffsetBlobStore {
 
     /// Save ZipOffsetBlobStore to file
     pub fn save_to_file<P: AsRef<Path>>(&self, path: P) -> Result<()> {
-        let mut file = std::fs::File::create(path)?;
-        self.save_to_writer(&mut file)
+        // Write under a temporary name and rename into place once the file is complete and synced:
+        // an interrupted save must not leave a partly written store (or a mixture of an older store
+        // and this one) under the final name.
+        let path = path.as_ref();
+        let mut tmp_name = path.as_os_str().to_owned();
+        tmp_name.push(".tmp");
+        let tmp_path = std::path::PathBuf::from(tmp_name);
+        let mut file = std::fs::File::create(&tmp_path)?;
+        self.save_to_writer(&mut file)?;
+        file.sync_all()?;
+        drop(file);
+        std::fs::rename(&tmp_path, path)?;
+        Ok(())
     }
 
     /// Save ZipOffsetBlobStore to writer
